@@ -42,6 +42,12 @@ class G:
     def directives(self, out, depth_limit=3):
         r = self.r
         while r.random() < 0.3:
+            if r.random() < 0.25:
+                # directives that have nothing to do with the keyword set: the stack stays as it is
+                out.append(r.choice(["`resetall\n", "`celldefine\n", "`endcelldefine\n", "`default_nettype wire\n", "`timescale 1ns/1ps\n",
+                                     "`define KWX%d 1\n" % self.n, "`undefineall\n", "`nounconnected_drive\n"] if depth_limit == 3 else
+                                    ["`define KWY%d 1\n" % self.n, "`undefineall\n", "`line 1 \"f.v\" 0\n"]))
+                continue
             if self.stack and r.random() < 0.5:
                 self.stack.pop()
                 out.append("`end_keywords\n")
@@ -115,6 +121,9 @@ FIXED = [
     ("`begin_keywords \"1364-1995\"\nmodule m;\n  reg signed;\n  wire [3:0] tagged;\nendmodule\n`end_keywords\n", True),
     ("`begin_keywords \"1364-1995\"\nmodule m; reg signed [3:0] x; endmodule\n`end_keywords\n", False),
     ("`begin_keywords \"1364-2001\"\nmodule m; reg signed [3:0] x; endmodule\n`end_keywords\n", True),
+    ("`begin_keywords \"1364-2001\"\n`resetall\nmodule m; wire logic; endmodule\n`end_keywords\n", True),
+    ("`begin_keywords \"1364-2001\"\n`begin_keywords \"1800-2017\"\n`resetall\n`end_keywords\nmodule m; wire logic; endmodule\n`end_keywords\n", True),
+    ("`begin_keywords \"1364-2001\"\n`resetall\n`end_keywords\nmodule m; wire logic; endmodule\n", False),
     ("`resetall\nmodule module; endmodule\n", False), ("`define X 1\nmodule m; wire wire; endmodule\n", False),
     ("`timescale 1ns/1ps\n`celldefine\nmodule m; reg always; endmodule\n", False),
 ]
